@@ -241,8 +241,11 @@ class YncaConnection:
         function_: str | None,
         value: str | None,
     ):
-        for callback in self._message_callbacks:
-            callback(status, subunit, function_, value)
+        # Iterate over a copy since callbacks can (un)register callbacks, e.g. when a subunit gets
+        # created or closed from within a callback or from another thread.
+        for callback in list(self._message_callbacks):
+            if callback in self._message_callbacks:
+                callback(status, subunit, function_, value)
 
     def connect(
         self,
